@@ -395,13 +395,72 @@ Proof.
   intros b _. apply maxl_perm. apply (flat_map_perm_inner (fun Hp i => hget Hp i b q) H s s' P).
 Qed.
 
-Definition not_gb (fd : fdata) : Prop := match fd with FGb _ _ _ _ => False | _ => True end.
+(** * genotype builder: sorting makes the value independent of the listing order *)
+Lemma Qle_bool_false_lt x y : Qle_bool x y = false -> y < x.
+Proof. intros H. apply Qnot_le_lt. intro L. apply Qle_bool_iff in L. congruence. Qed.
+Lemma Qle_bool_comp x x' y y' : x == x' -> y == y' -> Qle_bool x y = Qle_bool x' y'.
+Proof.
+  intros Ex Ey. destruct (Qle_bool x y) eqn:A, (Qle_bool x' y') eqn:B; try reflexivity.
+  - apply Qle_bool_iff in A. rewrite Ex, Ey in A. apply Qle_bool_iff in A. congruence.
+  - apply Qle_bool_iff in B. rewrite <- Ex, <- Ey in B. apply Qle_bool_iff in B. congruence.
+Qed.
+Lemma insQ_proper x a b : qleq a b -> qleq (insQ x a) (insQ x b).
+Proof.
+  induction 1 as [|y z a b Hyz Hab IH]; cbn [insQ]; [apply qleq_refl|].
+  rewrite (Qle_bool_comp x x y z (Qeq_refl x) Hyz). destruct (Qle_bool x z).
+  - constructor; [reflexivity | constructor; assumption].
+  - constructor; assumption.
+Qed.
+Lemma insQ_comm x y l : qleq (insQ x (insQ y l)) (insQ y (insQ x l)).
+Proof.
+  induction l as [|z r IH]; cbn [insQ].
+  - destruct (Qle_bool x y) eqn:A, (Qle_bool y x) eqn:B; cbn [insQ]; rewrite ?A, ?B; try apply qleq_refl.
+    + apply Qle_bool_iff in A, B. assert (E : x == y) by (now apply Qle_antisym). repeat constructor; [exact E | symmetry; exact E].
+    + apply Qle_bool_false_lt in A, B. exfalso. apply (Qlt_irrefl x). eapply Qlt_trans; eassumption.
+  - destruct (Qle_bool y z) eqn:Yz, (Qle_bool x z) eqn:Xz; cbn [insQ].
+    + destruct (Qle_bool x y) eqn:A, (Qle_bool y x) eqn:B; rewrite ?Xz, ?Yz; try apply qleq_refl.
+      * apply Qle_bool_iff in A, B. assert (E : x == y) by (now apply Qle_antisym).
+        constructor; [exact E|]. constructor; [symmetry; exact E | apply qleq_refl].
+      * apply Qle_bool_false_lt in A, B. exfalso. apply (Qlt_irrefl x). eapply Qlt_trans; eassumption.
+    + (* y <= z < x *)
+      assert (A : Qle_bool x y = false).
+      { destruct (Qle_bool x y) eqn:A; [|reflexivity]. apply Qle_bool_iff in A, Yz. apply Qle_bool_false_lt in Xz.
+        exfalso. apply (Qlt_irrefl x). eapply Qle_lt_trans; [eapply Qle_trans; eassumption | exact Xz]. }
+      rewrite A, Xz, Yz. apply qleq_refl.
+    + (* x <= z < y *)
+      assert (B : Qle_bool y x = false).
+      { destruct (Qle_bool y x) eqn:B; [|reflexivity]. apply Qle_bool_iff in B, Xz. apply Qle_bool_false_lt in Yz.
+        exfalso. apply (Qlt_irrefl y). eapply Qle_lt_trans; [eapply Qle_trans; eassumption | exact Yz]. }
+      rewrite B, Xz, Yz. apply qleq_refl.
+    + rewrite Xz, Yz. constructor; [reflexivity | exact IH].
+Qed.
+Lemma sortQ_perm l l' : Permutation l l' -> qleq (sortQ l) (sortQ l').
+Proof.
+  induction 1 as [| x l l' _ IH | x y l | l l' l'' _ IH1 _ IH2]; cbn [sortQ fold_right].
+  - constructor.
+  - apply insQ_proper, IH.
+  - apply insQ_comm.
+  - eapply qleq_trans; eassumption.
+Qed.
+Lemma qleq_length a b : qleq a b -> length a = length b.
+Proof. induction 1; cbn; congruence. Qed.
+Lemma qleq_skipn k a b : qleq a b -> qleq (skipn k a) (skipn k b).
+Proof. intros H; revert k. induction H; intros [|k]; cbn; try constructor; auto. Qed.
+Lemma lastn_proper k a b : qleq a b -> qleq (lastn k a) (lastn k b).
+Proof. intros H. unfold lastn. rewrite (qleq_length _ _ H). now apply qleq_skipn. Qed.
+Lemma gb_subset_perm H nb nt nbest s s' : Permutation s s' -> qleq (gb_subset H nb nt nbest s) (gb_subset H nb nt nbest s').
+Proof.
+  intros P. unfold gb_subset. apply qleq_map_seq. intros q _. change sumf with (@sumg nat).
+  rewrite (sumg_ext _ (fun b => qsum (lastn nbest (sortQ (map (fun i => maxl (map (fun Hp => hget Hp i b q) H)) s'))))); [reflexivity|].
+  intros b _. apply qsum_ext, lastn_proper, sortQ_perm, Permutation_map, P.
+Qed.
+
 Lemma is_nil_perm (s s' : list nat) : Permutation s s' -> is_nil s = is_nil s'.
 Proof. intros H. apply perm_len in H. destruct s, s'; cbn in *; congruence. Qed.
 
-Lemma latent_order_invariant n fd s s' : not_gb fd -> Permutation s s' -> res_eq (latent n fd (DSub s)) (latent n fd (DSub s')).
+Lemma latent_order_invariant n fd s s' : Permutation s s' -> res_eq (latent n fd (DSub s)) (latent n fd (DSub s')).
 Proof.
-  intros Hg P. unfold latent. rewrite <- (is_nil_perm s s' P). destruct (is_nil s); [exact I|]. cbn [res_eq].
+  intros P. unfold latent. rewrite <- (is_nil_perm s s' P). destruct (is_nil s); [exact I|]. cbn [res_eq].
   destruct fd as [g t M | t M C | C | C | Cs | Vs | t M ids | pl G w tf p t | pl G w tf p t | pl G w tf p t | H nb nt | H nb nt nbest].
   - apply lveq_Ex, lin_subset_perm, P.
   - constructor; [cbn; apply normsq_proper, cx_subset_perm, P | apply lveq_Ex, lin_subset_perm, P].
@@ -414,7 +473,7 @@ Proof.
   - rewrite (pau_code_perm pl G w tf p t s s' P). apply lveq_Ex, qleq_refl.
   - rewrite (mogs_pau_code_perm pl G w tf p t s s' P), (pafd_perm pl G w tf p t s s' P). apply lveq_Ex, qleq_refl.
   - apply lveq_Ex, opv_subset_perm, P.
-  - destruct Hg.
+  - apply lveq_Ex, gb_subset_perm, P.
 Qed.
 
 (** * scale invariance of the normalisation, outside the guard *)
